@@ -101,7 +101,20 @@ def run(ctx):
     walks3 = ctx.behaviours("exec", "Gen_TxPool", "Gen_TxPool.cfg", constants=dict(gen3, MaxOps=depth, Depth=depth),
                             simulate="num=%d" % ctx.pick(40, 500), depth=depth + 1, seed=ctx.seed + 200, timeout=1500)
     walks3 = spread(walks3, ctx.pick(800, 20000))
+    # pairs: EVERY behaviour "two new transfers added, then Candidate" over two accounts incl. self-transfers (breadth-first, not
+    # sampled): the second transfer is affordable or not only because of the cumulative effect of the first
+    genB = dict(gen, Accounts='{"a", "b"}', Rich='{"a", "b"}', Values="{0, 3}", Limits="{1}", Sizes="{1}", MaxTs=1, Th=3, InitBal=4,
+                MaxN=2, MaxPool=2)
+    paramsB = dict(Th=3, Price=1, MinStep=1, InitBal=4, MaxPool=2)
+    pairs = ctx.behaviours("exec", "Gen_TxPool", "Gen_TxPool.cfg", constants=dict(genB, MaxOps=3, Depth=3), timeout=900)
+    pairs = [b for b in pairs if [s["op"] for s in b] == ["add", "add", "candidate"] and b[0]["direct"] and b[1]["direct"]
+             and b[0]["tx"]["n"] != b[1]["tx"]["n"]]
+    ctx.log("pairs: %d behaviours add, add, candidate (all of them)" % len(pairs))
+    if not any(len(b[2]["sel"]) == 2 for b in pairs) or not any(len(b[2]["sel"]) == 1 for b in pairs):
+        from vlib import MachineryError
+        raise MachineryError("vacuity: the pair family has no Candidate call that selects both / only one of the two transfers")
     cases = [dict(params=params, accounts=["a", "b", "c"], steps=b) for b in walks]
+    cases += [dict(params=paramsB, accounts=["a", "b"], steps=b) for b in pairs]
     cases += [dict(params=params3, accounts=["a", "b", "c"], steps=b) for b in walks3]
     cases += [dict(params=params2, accounts=["a", "b"], steps=b) for b in walks2]
     sel = [len(s["sel"]) for c in cases for s in c["steps"] if s["op"] == "candidate"]
